@@ -39,6 +39,7 @@ type c31World struct {
 	hs   map[string]*vDatagram // "hs1x","hs1y","hs2x","hs2y"
 	// pair of a tunnel, by the local index at each node
 	pairA, pairB map[uint32]string
+	passHs       bool // handshake datagrams are handed back by collect (delivered like everything else)
 }
 
 func c31NewWorld(t *testing.T) *c31World {
@@ -62,6 +63,10 @@ func c31NewWorld(t *testing.T) *c31World {
 func (w *c31World) collect() (rest []*vDatagram) {
 	for _, nd := range []*vNode{w.A, w.B} {
 		for _, d := range nd.TakeUDP() {
+			if d.H.Type == header.Handshake && w.passHs {
+				rest = append(rest, d)
+				continue
+			}
 			if d.H.Type == header.Handshake {
 				stage := "hs1"
 				if d.H.MessageCounter == 2 {
@@ -216,7 +221,7 @@ func TestVerif_C31(t *testing.T) {
 						detail["dropped_at_step"] = si
 						detail["primaries_then"] = []string{pa, pb}
 					}
-				case "Settle":
+				case "Settle", "GiveUp":
 				}
 			}
 			// ---- after the handshake phase: compare with the model
@@ -231,9 +236,18 @@ func TestVerif_C31(t *testing.T) {
 			}
 			// ---- the network is quiet from here on (everything is delivered at once). Traffic pattern of the steady phase,
 			// one packet each way per second while "on": 0 = 90 s on; 1 = 7 s off, 3 s on, 45 s off; 2 = 12 s off, 40 s on, 25 s off
+			giveUp := c.Hist[len(c.Hist)-1] == "GiveUp"
 			pattern := []int{0, 2}[ci%2] // pattern 1 (a 3 s burst between silences) is not an oracle: the statement's convergence needs traffic that continues
+			if giveUp {
+				// the copies of the incomplete handshake(s) are lost, and so are the retransmissions until the initiator
+				// has given up (handshake datagrams are not delivered during the first 25 s); 3 = no inside packet at all
+				pattern = []int{3, 0}[ci%2]
+				res.Hit("give-up")
+			}
 			on := func(sec int) bool {
 				switch pattern {
+				case 3:
+					return false
 				case 1:
 					return sec >= 7 && sec < 10
 				case 2:
@@ -241,12 +255,13 @@ func TestVerif_C31(t *testing.T) {
 				}
 				return true
 			}
-			horizon := map[int]int{0: 90, 1: 55, 2: 77}[pattern]
+			horizon := map[int]int{0: 90, 1: 55, 2: 77, 3: 90}[pattern]
 			res.Hit(fmt.Sprintf("pattern:%d", pattern))
 			lastPa, lastPb := pa, pb
 			lastTa, lastTb := len(ta), len(tb)
 			flowOK := 0
 			for sec := 0; sec < horizon; sec++ {
+				w.passHs = giveUp && sec >= 25
 				if on(sec) {
 					g1 := data(w.A, w.B)
 					g2 := data(w.B, w.A)
@@ -261,6 +276,9 @@ func TestVerif_C31(t *testing.T) {
 					}
 				}
 				nta, ntb, npa, npb, _ := w.state()
+				if vEnv("VERIF_DEBUG") != "" {
+					fmt.Printf("c31 %v sec=%d A=%v(%s) B=%v(%s)\n", c.Hist, sec, nta, npa, ntb, npb)
+				}
 				// a swap: the primary changes although no tunnel was added or removed at that node
 				if npa != lastPa && len(nta) == lastTa && npa != "none" && lastPa != "none" {
 					swappedA++
@@ -284,9 +302,41 @@ func TestVerif_C31(t *testing.T) {
 					}
 				}
 			}
+			if giveUp && pattern == 3 && len(sa.Tunnels) == 0 && len(sb.Tunnels) == 0 {
+				// nothing survived the lost handshake and nobody has anything to send: quiet, and consistent
+				conv = true
+				res.Hit("give-up:no-tunnel-left")
+			}
+			if giveUp && conv {
+				// ... and the next inside packets get through (a new handshake if need be)
+				w.passHs = true
+				ok1, ok2 := false, false
+				for sec := 0; sec < 8 && !(ok1 && ok2); sec++ {
+					ok1 = data(w.A, w.B) || ok1
+					ok2 = data(w.B, w.A) || ok2
+					w.Advance(time.Second)
+					for k := 0; k < 3; k++ {
+						for _, d := range w.collect() {
+							w.Deliver(d)
+						}
+					}
+				}
+				if !ok1 || !ok2 {
+					add("quiet-but-no-traffic", fmt.Sprintf("after the quiet period (traffic pattern %d) inside packets do not get through within 8 s (A to B: %v, B to A: %v)", pattern, ok1, ok2), detail)
+				}
+			}
 			if !conv {
-				add("not-converged", fmt.Sprintf("after the quiet period (traffic pattern %d) the nodes hold A=%v B=%v (primaries %s/%s); A swapped %d times, B %d times", pattern, fta, ftb, fpa, fpb, swappedA, swappedB), detail)
-			} else if pattern == 0 && (!data(w.A, w.B) || !data(w.B, w.A)) {
+				key := "not-converged"
+				if giveUp && pattern == 3 {
+					key = fmt.Sprintf("not-converged:silence-after-give-up:A=%v:B=%v", fta, ftb)
+					// one node holds nothing, the other only the responder side of a handshake (A's responder side is
+					// pair y, B's is pair x): the initiator of that handshake let its side go as an idle non-primary
+					if (len(fta) == 0 && len(ftb) == 1 && ftb[0] == "x") || (len(ftb) == 0 && len(fta) == 1 && fta[0] == "y") {
+						key = "not-converged:silence-after-give-up:idle-responder-side-outlives-initiator-side"
+					}
+				}
+				add(key, fmt.Sprintf("after the quiet period (traffic pattern %d) the nodes hold A=%v B=%v (primaries %s/%s); A swapped %d times, B %d times", pattern, fta, ftb, fpa, fpb, swappedA, swappedB), detail)
+			} else if pattern == 0 && !giveUp && (!data(w.A, w.B) || !data(w.B, w.A)) {
 				add("converged-but-no-traffic", "one tunnel on each side but data does not pass", detail)
 			}
 			if swappedA+swappedB > 0 {
